@@ -323,6 +323,10 @@ static vector<TeleEntry> makeTelegrams(const vector<Def>& U) {
       for (size_t l = 0; l < p.size(); l++) data[Bytes(p.begin(), p.begin() + l)] |= bit;   // truncate
       for (uint8_t x : {0x00, 0x77}) { Bytes e = p; e.push_back(x); data[e] |= bit; }        // extend
       for (size_t i = 0; i < p.size(); i++) { Bytes m = p; m[i] ^= 0x01; data[m] |= bit; }   // mutate one byte
+      // chained: head of one part ID continued by the tail of another part ID of the same definition
+      for (const Bytes& q : U[di].parts) for (size_t k = 1; k < p.size(); k++) {
+        Bytes m(p.begin(), p.begin() + k); m.insert(m.end(), q.begin() + k, q.end()); data[m] |= bit;
+      }
     }
   }
   vector<TeleEntry> out;
@@ -464,13 +468,16 @@ int main(int argc, char** argv) {
   size_t maxSize = std::max(maxFull, maxMember);
   vector<int> all, core;
   vector<int> condPool;   // availability pass: conditional definitions and their unconditional partners
+  vector<int> shapePool;  // chain-shape pass: chained definitions with >= 3 parts and the same partners
   for (size_t i = 0; i < U.size(); i++) {
     if (U[i].cond || U[i].condPool) condPool.push_back((int)i);
-    if (U[i].cond) continue;
+    if (U[i].shape || U[i].condPool) shapePool.push_back((int)i);
+    if (U[i].cond || U[i].shape) continue;
     all.push_back((int)i); if (U[i].core) core.push_back((int)i);
   }
-  R.note("universe " + std::to_string(all.size()) + " unconditional definitions (core " + std::to_string(core.size()) + ") + " +
-         std::to_string(U.size() - all.size()) + " conditional ones explored with " + std::to_string(condPool.size() - (U.size() - all.size())) + " partners in 5 environments, " +
+  R.note("universe " + std::to_string(all.size()) + " definitions (core " + std::to_string(core.size()) + ") + " +
+         std::to_string(c08::FIRST_SHAPE - c08::FIRST_CONDITIONAL) + " conditional ones (5 environments) + " + std::to_string(U.size() - c08::FIRST_SHAPE) +
+         " chained ones with 3-4 parts, the latter two groups explored with 12 partners, " +
          std::to_string(teles.size()) + " telegrams x 16 flag combinations");
 
   bool stop = false;
@@ -478,8 +485,10 @@ int main(int argc, char** argv) {
   // pass 2: size maxSize over the core universe
   // pass 3 (availability): all sizes 1..maxSize over conditional definitions + partners, only states that contain
   //         a conditional definition, each in every environment (value the conditions look at x onlyAvailable)
-  for (int pass = 0; pass < 3 && !stop; pass++) {
-    const vector<int>& pool = pass == 0 ? all : pass == 1 ? core : condPool;
+  // pass 4 (chain shape): all sizes 1..maxSize over chained definitions with 3-4 parts + partners, only states that
+  //         contain one of them
+  for (int pass = 0; pass < 4 && !stop; pass++) {
+    const vector<int>& pool = pass == 0 ? all : pass == 1 ? core : pass == 2 ? condPool : shapePool;
     size_t lo = pass == 0 ? 0 : pass == 1 ? maxSize : 1, hi = pass == 0 ? (coreLast ? maxSize - 1 : maxSize) : maxSize;
     if (pass == 1 && !coreLast) continue;
     vector<int> order;
@@ -493,10 +502,14 @@ int main(int argc, char** argv) {
         if (R.expired()) { stop = true; return; }
         if (pass < 2) {
           runState(U, teles, order, order.size() > maxFull);
-        } else {
+        } else if (pass == 2) {
           bool hasCond = false;
           for (int di : order) if (U[di].cond) hasCond = true;
           if (hasCond) for (const Env& env : ENVS) runState(U, teles, order, order.size() > maxFull, &env);
+        } else {
+          bool hasShape = false;
+          for (int di : order) if (U[di].shape) hasShape = true;
+          if (hasShape) { R.count("states_with_multipart_chains"); runState(U, teles, order, order.size() > maxFull); }
         }
       }
       if (order.size() >= hi) return;
@@ -517,6 +530,7 @@ int main(int argc, char** argv) {
     R.sample("state = ordered list of loaded definitions, e.g. [" + c08::defLine(U[3], 3) + " | " + c08::defLine(U[30], 30) + " | " + c08::defLine(U[13], 13) + "]");
     R.sample("telegram " + teleHex(t) + " from sources 10/03/31 to 08/15/fe/30 with each of 16 flag combinations; reference = linear scan, longest matching ID must win");
     R.sample("availability: [" + c08::defLine(U[40], 40) + " | " + c08::defLine(U[41], 41) + "] with the condition message received as 1 / 2 / 3 / never, onlyAvailable true/false");
+    R.sample("chain shape: " + c08::defLine(U[47], 47) + " (common prefix 0d, first/last share 0d00) with telegrams for every part and for heads/tails of different parts, e.g. 0d0002");
     R.sample("fold twins: " + c08::defLine(U[5], 5) + " and " + c08::defLine(U[8], 8) + " share one 64-bit key");
   }
   R.write(A.out);
